@@ -478,6 +478,16 @@ class RGen:
             self.features.add("function_body_varies_between_models")
             self.features.add("nested_function")
 
+    def make_functions_v5(self):
+        # f8(x) -> (a, b) with a = Relu(x), b = Neg(a): two outputs, the second computed from the first; call sites may omit
+        # the first one ("" in the node's output list)
+        if self.t.pick(2) == 0:
+            self.functions["f8"] = oh.make_function("local", "f8", ["x"], ["a", "b"], [oh.make_node("Relu", ["x"], ["a"], name="f8r"), oh.make_node("Neg", ["a"], ["b"], name="f8n")],
+                                                    [oh.make_opsetid("", self.opset)])
+            self.fn_sigs["f8"] = (1, [], ["F23"], 2)
+            self.features.add("function")
+            self.features.add("two_output_function")
+
     def call(self, nodes, pool):
         t = self.t
         names = sorted(self.fn_sigs)
@@ -492,6 +502,18 @@ class RGen:
             if not has_default or t.pick(2):
                 kw[an] = [0.5, 3.0][t.pick(2)] if ty == "f" else [-1, 0][t.pick(2)]
         out = self.fresh()
+        if len(self.fn_sigs[fn]) > 3:
+            # two outputs: both, or one of them omitted (the trailing one by a shorter list or by "")
+            out2 = self.fresh()
+            # (a trailing omission is not generated: serialization trims it, and the ONNX checker rejects a call with fewer
+            # outputs than the function declares)
+            form = t.pick(2)
+            outs = [[out, out2], ["", out2]][form]
+            nodes.append(oh.make_node(fn, ins, outs, domain="local", name=self.nname(fn), **kw))
+            self.features.add("function_call")
+            if form:
+                self.features.add("call_omits_an_output")
+            return [(o, "F23") for o in outs if o]
         nodes.append(oh.make_node(fn, ins, [out], domain="local", name=self.nname(fn), **kw))
         self.features.add("function_call")
         return [(out, "F23")]
@@ -505,6 +527,8 @@ class RGen:
             self.make_functions_v3()
         if self.gen >= 4:
             self.make_functions_v4()
+        if self.gen >= 5:
+            self.make_functions_v5()
         inputs = [vinfo("x0", "F23"), vinfo("x1", "F23"), vinfo("cnd", "B")]
         pool = [("x0", "F23"), ("x1", "F23"), ("cnd", "B")]
         inits = []
@@ -543,7 +567,7 @@ class RGen:
                         continue
                     kw = {an: ([0.5, 3.0][t.pick(2)] if ty == "f" else [-1, 0][t.pick(2)]) for an, ty, has_default in attrs if not has_default}
                     out = self.fresh()
-                    nodes.append(oh.make_node(fn, ins, [out], domain="local", name=self.nname(fn), **kw))
+                    nodes.append(oh.make_node(fn, ins, ["", out] if len(self.fn_sigs[fn]) > 3 else [out], domain="local", name=self.nname(fn), **kw))
                     pool.append((out, "F23"))
                     self.features.add("function_call")
         # outputs
